@@ -1199,7 +1199,12 @@ class BeltStore(Store):
 
         Computes delay using same logic as for existing items.
         """
-        
+        if self.noaccumulation_mode_on == True:
+            # a stopped non-accumulating belt moves nothing: the new item waits where it was put
+            # (same rule as selective_interrupt applies to the items already on the belt)
+            item_id = item[0].id if hasattr(item[0], 'id') else str(id(item))
+            self._interrupt_specific_item(item_id, "New item during interruption")
+            return
 
         # Build the updated belt pattern with new item
         current_pattern = self._get_belt_pattern()
